@@ -126,3 +126,19 @@ Proof.
   - rewrite map_length, seq_length. exact K2.
   - apply nodup_map_inj; [intros i j Hij; lia|apply seq_NoDup].
 Qed.
+
+(* ---------- "endogenous iff some equation assigns it": a second assignment target is not seen (kept finding) ---------- *)
+(* only the text left of the FIRST `=` is the left-hand side: in  Y = Z = X[-1]  and  Y = X[-1] ; X = 3  the names Z / X are
+   written by the generated code (`self._Y[t] = self._Z[t] = self._X[t-1]`) but classified EXOGENOUS *)
+Theorem chained_assignment_refuted :
+  match parse_model_nocheck "Y = Z = X[-1]" with
+  | POk syms => map (fun s => (sname s, stype s, scode s)) syms =
+                [(Some "Y", TEndogenous, Some "self._Y[t] = self._Z[t] = self._X[t-1]"); (Some "Z", TExogenous, None); (Some "X", TExogenous, None)]
+  | _ => False
+  end /\
+  match parse_model_nocheck "Y = X[-1] ; X = 3" with
+  | POk syms => map (fun s => (sname s, stype s, scode s)) syms =
+                [(Some "Y", TEndogenous, Some "self._Y[t] = self._X[t-1] ; self._X[t] = 3"); (Some "X", TExogenous, None)]
+  | _ => False
+  end.
+Proof. split; vm_compute; reflexivity. Qed.
